@@ -264,14 +264,22 @@ class ConsumerClient(Client):
         st[r.randrange(n)] += 1
         if r.random() < 0.5:
             st[r.randrange(n)] += 1
-        self.queue = [
+        build = [
             {"op": "new_param", "value": round(r.uniform(0, 3), 3), "out": pid,
              "role": "phi"},
             {"op": "new_circuit", "n": n, "out": cid},
             {"op": "bs", "c": cid, "m1": 0, "m2": 1, "r": 0.5},
             {"op": "ps", "c": cid, "m": r.randint(0, 1), "phi": {"p": pid}},
             {"op": "bs", "c": cid, "m1": 0, "m2": 1,
-             "r": r.choice([0.5, 0.3])},
+             "r": r.choice([0.5, 0.3])}]
+        if r.random() < 0.5:
+            # the interferometer sits inside a group of the held circuit
+            par = w.new_id("c")
+            build += [{"op": "new_circuit", "n": n, "out": par},
+                      {"op": "add", "parent": par, "sub": cid, "mode": 0,
+                       "group": True}]
+            cid = par
+        self.queue = build + [
             {"op": "cons_set", "kind": self.kind, "s": sid, "attr": "circuit",
              "ref": cid, "ref_c": cid},
             {"op": "cons_set", "kind": self.kind, "s": sid,
